@@ -1,6 +1,34 @@
-import S2S.Spec.Routing
+import S2S.Proofs.RoutingInvMain
+/-!
+C01: fault-free runs of the routing model never acknowledge an unconfirmed task.
+Proof: `Inv` (S2S/Proofs/RoutingInvDef.lean) holds initially and is preserved by every non-fault
+step under `RecvOK`; in every reachable state it implies that `lastSentAck` covers only
+confirmed tasks, and every ack a step sends equals the post-state's `lastSentAck`.
+-/
 namespace S2S.Routing
+
+theorem acks_safe_of_inv (σ : State) (hI : Inv σ) (acts : List Act)
+    (henv : EnvOK Cfg.cur σ acts) (hnf : NoFaults acts) : AcksSafeAlong Cfg.cur σ acts := by
+  induction acts generalizing σ with
+  | nil => trivial
+  | cons a rest ih =>
+    have hnf' : NoFaults rest := fun b hb => hnf b (List.mem_cons_of_mem _ hb)
+    have hnfa : a.isFault = false := hnf a List.mem_cons_self
+    unfold EnvOK at henv
+    obtain ⟨henva, henvr⟩ := henv
+    unfold AcksSafeAlong
+    cases hstep : step Cfg.cur σ a with
+    | none =>
+      rw [hstep] at henvr
+      exact ih σ hI henvr hnf'
+    | some σ' =>
+      rw [hstep] at henvr
+      have hI' : Inv σ' := step_inv hI a henva hnfa hstep
+      exact ⟨step_ackStepSafe hI' (step_acksAreLast a hstep), ih σ' hI' henvr hnf'⟩
+
 theorem acks_safe_cur (ns nt : Nat) (acts : List Act)
     (henv : EnvOK Cfg.cur (State.init ns nt) acts) (hnf : NoFaults acts) :
-    AcksSafeAlong Cfg.cur (State.init ns nt) acts := sorry
+    AcksSafeAlong Cfg.cur (State.init ns nt) acts :=
+  acks_safe_of_inv _ (inv_init ns nt) acts henv hnf
+
 end S2S.Routing
